@@ -390,8 +390,42 @@ let tcalls_consistent (calls : tcall list) : bool =
       x.tc_scen <> y.tc_scen || x.tc_step <> y.tc_step || x.tc_parts = y.tc_parts) calls) calls
   && List.for_all (fun x -> let ks = List.map fst x.tc_parts.pa_hdrs in List.length (uniq ks) = List.length ks) calls
 
+(* ---- csv cases (grammar: harness/cmd/hC15/csvsrc.go) ---- *)
+let print_rows (rows : (n list * n list) list list) : string =
+  if rows = [] then "ok -"
+  else "ok " ^ String.concat ";" (List.map (fun row ->
+      if row = [] then "-"
+      else String.concat "," (List.sort compare (List.map (fun (k, v) -> hex_of_bytes k ^ "=" ^ hex_of_bytes v) row))) rows)
+
 let predict (c : string) (obs : string) : string * string * bool =
   match split_blank c with
+  | ["csv"; delim; fields; ign; filed; lines; filehex] ->
+      let dopt = if delim = "~" then [] else bytes_of_hex delim in
+      let fl = if fields = "~" then [] else List.map bytes_of_hex (String.split_on_char ',' fields) in
+      let ignore = (ign = "i") in
+      let file = bytes_of_hex filehex in
+      let o = { co_delim = dopt; co_fields = fl; co_ignore = ignore } in
+      let p = (match read_csv o file with
+          | CsvOk rows -> print_rows rows
+          | CsvErr -> "err"
+          | CsvUnmodelled -> "unmodelled") in
+      (* specification side (C15_csv_source): the file is the printed form of lines of w clean cells, the
+         delimiter is valid and the option names it (or is absent for the comma) *)
+      let d = (match bytes_of_hex filed with [x] -> x | _ -> failwith "filed") in
+      if lines = "~" then (p, "ok", false)
+      else begin
+        let ls = List.map (fun l -> List.map bytes_of_hex (String.split_on_char ',' l)) (String.split_on_char ';' lines) in
+        let w = nat_of_int (List.length (List.hd ls)) in
+        let hyp = valid_delim d && int_of_n d < 128 && comma_of dopt = d
+                  && List.for_all (line_ok d w) ls && print_csv d ls = file in
+        if hyp then begin
+          let want = print_rows (csv_spec fl ignore ls) in
+          let ws = (match dopt with [x] -> x = n_of_int 9 || x = n_of_int 32 | _ -> false) in
+          (p, verdict (obs = want)
+             "csv-source-rows: the rows of a file/csv source are not the cells of its lines under the configured field names (delimiter, fields, ignore_first_line)",
+           List.length ls >= 2 && (ws || fl = [] || ignore))
+        end else (p, "ok", false)
+      end
   | ["tmpl"; kind; trees; calls] ->
       let html = (kind = "h") in
       let trees = Array.of_list (List.map (fun t -> tval_of (parse_tree t)) (String.split_on_char ';' trees)) in
